@@ -38,10 +38,6 @@ def compare(markers, answers, sections=('versions', 'txs', 'assoc', 'changes', '
         im = impl_sections(mk)
         for sec in sections:
             a, b = im[sec], md[sec]
-            if sec == 'changes' and not any(w in mk['label'] for w in ('commit', 'rollback', 'init')):
-                # TransactionChanges objects are added to the application session in after_flush and
-                # reach the table with the next flush (at the latest the one commit performs)
-                continue
             if sec == 'mgr':
                 # an idle unit of work (nothing recorded) is equivalent to none for this comparison
                 def norm(x):
